@@ -349,6 +349,24 @@ def main():
         rows.append(f"({lstr(code)}, {n_}, {d_})")
     t.append("/-- conversion code text ↦ the multiplier it denotes (numerator, denominator) -/")
     t.append("def codeFactors : List (String × Nat × Nat) := " + llist(rows) + "\n")
+    # per-language word tables for the language-parity obligations (C19)
+    rows = []
+    for lang in langs:
+        Lg = cfg["languages"][lang]
+        al = llist([f"({lstr(k)}, {lstr(Lg['alias'][k])})" for k in rust_sorted(Lg.get("alias", {}).keys())])
+        rows.append(f"({lstr(lang)}, {al})")
+    t.append("/-- language ↦ alias word ↦ replacement text -/")
+    t.append("def langAliases : List (String × List (String × String)) := " + llist(rows) + "\n")
+    rows = []
+    for lang in langs:
+        Lg = cfg["languages"][lang]
+        names = []
+        for tab in ("long_months", "short_months"):
+            for k in rust_sorted(Lg[tab].keys()):
+                names.append(f"({lstr(k)}, {Lg[tab][k]})")
+        rows.append(f"({lstr(lang)}, {llist(names)})")
+    t.append("/-- language ↦ every configured month spelling ↦ month number -/")
+    t.append("def monthNames : List (String × List (String × Nat)) := " + llist(rows) + "\n")
     t.append("/-- parser order of TOKEN_REGEX_PARSER -/")
     t.append("def parserOrder : List String := " + llist([lstr(x) for x in order]) + "\n")
     t.append("end SC.Gen\n")
